@@ -141,6 +141,11 @@ def att_case(draw, tier="quick"):
             mo = draw(st.integers(1, 6))
         elif mode == "min_period" and n >= 2 and not subsec:
             mp = draw(st.one_of(st.sampled_from([30, 60, 90, 120, 240, 600]), st.integers(1, 4000)))
+            med = statistics.median(b_ - a_ for a_, b_ in zip(t, t[1:]))
+            if med != int(med):
+                # (an even number of steps whose two middle values differ: the median step is a half second, and the
+                # statement does not say how a fractional step is rounded - same exclusion as for sub-second axes)
+                mp = None
     off = 0.0
     if mode == "none" or check == "range":
         # a signal riding on a large offset (the windowed standard deviation is left out: pandas' online variance is not
